@@ -255,8 +255,9 @@ DROPPING = {"filter", "filter_map", "take", "skip", "take_while", "skip_while", 
 DISCARDING = {"ok", "err", "is_ok", "is_err", "unwrap_or", "unwrap_or_default", "unwrap_or_else", "map_or", "map_or_else", "or", "or_else", "is_ok_and", "is_err_and"}
 ERR_TYPES = ("prqlc_parser::error::Error", "prqlc_parser::error::Errors", "error_message::ErrorMessages", "error_message::ErrorMessage")
 # error-discarding adapters on the compiler's own error type: reviewed sites, one reason each
+# keyed by (file, adapter) with a count, so that moving the code into a helper of the same file changes nothing
 DISCARD_REVIEWED = {
-    "semantic::resolver::names::<impl semantic::resolver::Resolver<'_>>::resolve_ident:is_ok": "loop over enclosing module paths: the last attempt's Result (Ok or Err) is what the function goes on with, no error is lost",
+    ("prqlc/prqlc/src/semantic/resolver/names.rs", "is_ok"): (1, "resolve_ident: loop over enclosing module paths; the last attempt's Result (Ok or Err) is what the function goes on with, no error is lost"),
 }
 
 
@@ -315,6 +316,7 @@ def r8(ctx, rep):
     rep.check(n_short >= 1, "types:shortcuts", f"expected the relation shortcut of is_super_type_of, found {n_short} accepting shortcuts")
     # (d) error-discarding adapters on the compiler's error type (driver: resolved receiver types)
     n_sites = 0
+    seen_rev = {}
     for fid, fn_ in cg.fns.items():
         if fn_["crate"] not in ("prqlc",) or "/debug/" in fn_["file"] or "/cli/" in fn_["file"]:
             continue
@@ -330,8 +332,10 @@ def r8(ctx, rep):
             n_sites += 1
             owner = cg.owner_fn(fid)["path"]
             key = f"discard:{owner}:{m}"
-            if f"{owner}:{m}" in DISCARD_REVIEWED:
-                rep.ok(key, {"reviewed": DISCARD_REVIEWED[f"{owner}:{m}"]})
+            seen_rev[(r["file"], m)] = seen_rev.get((r["file"], m), 0) + 1
+            rv = DISCARD_REVIEWED.get((r["file"], m))
+            if rv and seen_rev[(r["file"], m)] <= rv[0]:
+                rep.ok(f"discard:{r['file'].split('/')[-1]}:{m}", {"reviewed": rv[1]})
             else:
                 rep.bad(key, f"`.{m}()` on `{recv[:110]}` in {owner} throws the compiler's error away: a program that should be rejected (unknown column, ambiguous name) continues on a fallback path",
                         file=r["file"], line=r["l"], fn=owner)
